@@ -40,7 +40,10 @@ for p in PROPS:
                             'Print Assumptions lists them (and the stdlib primitive 63-bit integers under the '
                             'enclosure theorems about the interval instance); the Python correspondence harness; '
                             'float rounding is outside the model (tolerance compare).'),
-        technique=meta.get('technique', 'Coq proof over a Gallina model + differential correspondence (vm_compute)'),
+        technique=meta.get('technique', 'Coq proof over a Gallina model'
+                           + (' + kernels regenerated from the source by a translator and proved equal to the model '
+                              '(harness/ties/Tie_%s.v)' % p if 'C.source_tie(ctx' in src else '')
+                           + ' + differential correspondence (vm_compute)'),
     ))
 man = dict(
     version=1,
